@@ -85,7 +85,7 @@ VelocityFields(b, o) ==
       \* reserved subtypes: the 22 bits after the accuracy field, as the library views them (a 22-bit little-endian
       \* read: first eight bits least significant) - opaque, no property constrains them (owner "I")
       x == Field(b, o + 13, 22)
-      rs == [vraw22 |-> (x % 64) * 65536 + ((x \div 64) % 256) * 256 + x \div 16384]
+      rs == [vraw22 |-> (x % 64) * 65536 + ((x \div 64) % 256) * 256 + x \div 16384, vrk |-> IF st = 0 THEN 0 ELSE 1]
   IN IF st \in {1, 2} THEN common @@ gs
      ELSE IF st \in {3, 4} THEN common @@ as
      ELSE common @@ rs
@@ -217,7 +217,7 @@ Owner(f) ==
               "hst", "hdg", "ast", "as"} -> "C07"
     [] f \in {"cs", "cat", "tcl"} -> "C08"
     [] f \in {"id", "es", "st28"} -> "C09"
-    [] f \in {"raw", "rsv5", "vraw22", "bdsid"} -> "I"          \* opaque bytes: no listed property; reported as drift of the model
+    [] f \in {"raw", "rsv5", "vraw22", "vrk", "bdsid"} -> "I"          \* opaque bytes: no listed property; reported as drift of the model
     [] OTHER -> "C10"
 
 \* coarse signature of an input, used for known findings and coverage counters
